@@ -202,6 +202,10 @@ func runC10(c *mon.Ctx) {
 		if f.CreationTime.IsZero() && f.ModificationTime.IsZero() {
 			f.ModificationTime = f.ModificationTime.AddDate(2001, 0, 0)
 		}
+		if k.Index%4 == 3 {
+			// as applications get it: the font is read from a file first
+			f = readBack(k, f)
+		}
 		n := f.NumGlyphs()
 		list := c10list(k, f, n)
 		desc := fmt.Sprintf("kind=%s glyphs=%d cmap=%s layout=%v list=%v", info.Kind, n, info.CMap, info.Classes, list)
